@@ -352,6 +352,12 @@ func c12Judge(r *h.Result, j c12Judged, tier string, confirm bool) {
 		fam := "hang"
 		if j.o.Outcome == "memory" {
 			fam = "memory" // resource exhaustion: outside the modelled part (partial), reported under its own key
+		} else if b := c12AggBuckets(cs); b >= 10000000 && strings.Contains(j.o.Dump, "internal_planner.(*AggregatorPlanner).process") {
+			// the request is still inside the in-process aggregator, which allocates and walks window/range buckets per
+			// series (tens of millions here): the same call site and input class as the recorded resource-exhaustion
+			// finding — whether it shows as an OOM kill or as a missed deadline depends on the machine's load
+			fam = "memory"
+			r.Count("outcome:aggregator-over-10M-buckets-missed-deadline")
 		}
 		r.Violate("C12/"+fam+"/"+cs.Endpoint, fmt.Sprintf("%s %s is not answered within the deadline (%s); goroutines: %s", cs.Method, c12Short(cs.Path), j.o.Outcome, j.o.Dump),
 			replay(map[string]any{"outcome": j.o}))
@@ -407,6 +413,24 @@ func c12HangConfirmed(j *c12Judged, tier string) bool {
 		return true
 	}
 	return false
+}
+
+var c12RangeRe = regexp.MustCompile(`\[([0-9a-zµ.]+)\]`)
+
+// c12AggBuckets: window / range of a LogQL metric request (0 when the request has no range or no window)
+func c12AggBuckets(cs *c12Case) int64 {
+	if cs.To <= cs.From || cs.Query == "" {
+		return 0
+	}
+	m := c12RangeRe.FindAllStringSubmatch(cs.Query, -1)
+	if len(m) == 0 {
+		return 0
+	}
+	d, err := time.ParseDuration(m[len(m)-1][1])
+	if err != nil || d <= 0 {
+		return 0
+	}
+	return (cs.To - cs.From) / int64(d)
 }
 
 func c12Short(s string) string {
